@@ -543,6 +543,21 @@ def key2index(keys, key):
 key2index._pattern = re.compile(r"^[1-9][0-9]*$")
 
 
+def axis_wrap_if_negative_at(layout, axis, depth):
+    # A negative `axis` counts from the innermost dimension of `layout`, which
+    # sits at nesting level `depth` of the whole array (1 for the array
+    # itself): translate it to a dimension number of the whole array. It stays
+    # negative while it cannot be resolved (records with fields of different
+    # depths).
+    if axis >= 0:
+        return axis
+    wrapped = layout.axis_wrap_if_negative(axis)
+    if wrapped >= 0:
+        return wrapped + depth - 1
+    else:
+        return wrapped
+
+
 def completely_flatten(array):
     if isinstance(array, ak.partition.PartitionedArray):
         out = []
